@@ -54,6 +54,7 @@ structure St where
 inductive Err where
   | rt (line : Nat)     -- runtime error raised by the construct on `line`
   | unc                 -- the documents do not determine the behaviour
+  | mem                 -- a request for more memory than the machine has (excluded by C08's statement)
   | fuel
 deriving Repr
 
@@ -86,6 +87,26 @@ def updScope (name : String) (v : Val) : Scope → Option Scope
       | .l _ => some ((n, .l v) :: rest)
       | _ => none
     else (updScope name v rest).map ((n, b) :: ·)
+
+/-- assign to the innermost binding of `name` when it is a captured copy -/
+def updScopeCap (name : String) (v : Val) : Scope → Option Scope
+  | [] => none
+  | (n, b) :: rest =>
+    if n == name then
+      match b with
+      | .cap _ => some ((n, .cap v) :: rest)
+      | _ => none
+    else (updScopeCap name v rest).map ((n, b) :: ·)
+
+def updEnvCap (name : String) (v : Val) : Env → Option Env
+  | [] => none
+  | s :: rest =>
+    match lookupScope name s with
+    | some _ => (updScopeCap name v s).map (· :: rest)
+    | none => (updEnvCap name v rest).map (s :: ·)
+
+/-- the hidden binding that names the closure whose activation an environment belongs to -/
+def selfKey : String := "%self"
 
 /-- assign to the innermost local binding of `name` -/
 def updEnv (name : String) (v : Val) : Env → Option Env
@@ -153,6 +174,12 @@ def ofExpect (line : Nat) : Spec.Expect → M Val
 def applyBinary (line : Nat) (op : Spec.Op) (l r : Val) : M Val := do
   let l' ← reifyM l
   let r' ← reifyM r
+  -- a repetition whose result exceeds 16 MiB is "more memory than the machine has": anything goes
+  let huge (s : String) (n : Int64) : Bool := n.toInt ≥ 0 && s.utf8ByteSize * n.toInt.toNat > 16777216
+  match op, l', r' with
+  | .mul, .str s, .int n => if huge s n then throw .mem
+  | .mul, .int n, .str s => if huge s n then throw .mem
+  | _, _, _ => pure ()
   let v ← ofExpect line (Spec.binary op l' r')
   reflectM v
 
@@ -210,7 +237,10 @@ def evalE : Nat → Env → Expr → M (R Val)
         if v matches .other "poison" then throw .unc
         return .val v env
       | some (.l v) => pure (.val v env)
-      | some (.cap v) => pure (.val v env)
+      | some (.cap v) =>
+        -- a captured copy this closure assigned to in an earlier activation: not specified
+        if v matches .other "poison" then throw .unc
+        else pure (.val v env)
       | none =>
         if isBuiltinFn name then pure (.val (.builtin name) env)
         else do
@@ -324,7 +354,15 @@ def evalE : Nat → Env → Expr → M (R Val)
             match updEnv name v env with
             | some env' => pure (.val v env')
             | none => throw .unc
-          | some (.cap _) => throw .unc     -- assignment to a captured variable: not specified
+          | some (.cap _) =>
+            -- assignment to a captured copy: the rest of this activation (and closures it creates)
+            -- sees the new value; what later activations of the same closure see is not specified
+            match lookupEnv selfKey env, updEnvCap name v env with
+            | some (.cap (.clos _ _ id)), some env' => do
+              modify fun s => { s with clos := s.clos.modify (id - 1) fun c =>
+                { c with captured := (name, .cap (.other "poison")) :: c.captured } }
+              pure (.val v env')
+            | _, _ => throw .unc
           | none => throw .unc
         | .index _ a i _ => do
           match ← evalE fuel env a with
@@ -433,7 +471,7 @@ def callValue : Nat → Nat → Val → List Val → M Val
         let self : Scope := if c.name == "" then [] else [(c.name, .cap vf)]
         let paramScope : Scope := (c.params.zip vargs).map fun (n, v) => (n, .l v)
         -- later parameters shadow earlier ones of the same name
-        let env : Env := [paramScope.reverse, self, c.captured]
+        let env : Env := [paramScope.reverse, self, (selfKey, .cap vf) :: c.captured]
         let (flow, v, _) ← evalBlock fuel env c.body
         match flow with
         | .ret r => pure r
